@@ -132,6 +132,9 @@ pub fn start_world(scen: &'static Scenario, ctx: &mut Ctx) -> Option<World> {
         if !w.apply(a, ctx) {
             return None;
         }
+        if std::env::var("RMC_PREFIX_TRACE").is_ok() {
+            eprintln!("prefix {:?}\n{}", a, w.describe());
+        }
     }
     w.end_prefix();
     Some(w)
